@@ -56,4 +56,37 @@ def markerTarget (norm : Str → Str) (basenameNoExt : Str) (payload : Option (O
   | some (some t) => norm t
   | _ => dataS ++ '/' :: basenameNoExt
 
+/-! ### which listed file a manifest entry / marker payload refers to (`_referenced_path`, repair 8435446) -/
+
+/-- `str.split("/")` -/
+def splitSlash : Str → List Str
+  | [] => [[]]
+  | c :: rest =>
+      match splitSlash rest with
+      | [] => [[c]]
+      | x :: xs => if c = '/' then [] :: x :: xs else (c :: x) :: xs
+
+/-- `posixpath.normpath` on a RELATIVE path, as components (`acc` reversed): '' and '.' vanish, '..' pops a real component and is kept
+when there is none to pop -/
+def normRel (acc : List Str) : List Str → List Str
+  | [] => acc.reverse
+  | c :: rest =>
+      if c = [] ∨ c = ['.'] then normRel acc rest
+      else if c = ['.', '.'] then
+        (match acc with
+         | [] => normRel [['.', '.']] rest
+         | a :: as => if a = ['.', '.'] then normRel (['.', '.'] :: acc) rest else normRel as rest)
+      else normRel (c :: acc) rest
+
+def canonRel (p : Str) : Str :=
+  match normRel [] (splitSlash p) with
+  | [] => ['.']
+  | cs => (cs.flatMap fun c => '/' :: c).drop 1
+
+/-- local backend: spellings are resolved by the filesystem, so references are compared by the file they NAME; object storage: keys
+are literal, the spelling IS the key -/
+def referenced (localBackend : Bool) (tp real p : Str) : Str :=
+  let n := normalize tp real p
+  if localBackend && n != [] then canonRel n else n
+
 end DSV.Gc
